@@ -444,7 +444,7 @@ static void real_runs(report& r, bool thorough)
             vf::script_engine::salt() = 4242;
         }
         sz const per_iter = (eng == 0 && dims == 2) ? sz(std::sqrt(double(calls))) * sz(std::sqrt(double(calls))) : calls;
-        T const alpha = T(1.5);
+        T const alpha = T(0.75);
         auto chk = hep::make_vegas_chkpt<T, vf::script_engine>(bins, alpha);
         using chk_t = decltype(chk);
         // a user callback so that the default stop rule does not interfere
@@ -488,7 +488,7 @@ static void mpi_runs(report& r)
         r.eval();
         vf::script_engine::table().clear();
         vf::script_engine::salt() = 777;
-        T const alpha = T(1.5);
+        T const alpha = T(1.25);
         vf::mpi_env env(world);
         auto chk0 = hep::make_vegas_chkpt<T, vf::script_engine>(bins, alpha);
         std::vector<std::string> texts(world);
